@@ -75,7 +75,7 @@ def run_check(pid, tier, seed):
     L = ldr.Loader(overrides=getattr(pm, "OVERRIDES", {}))
     from pyvc import session
     session._LOADER[0] = L
-    t_z3 = 10000 if tier == "quick" else 60000
+    t_z3 = 20000 if tier == "quick" else 90000
     all_vcs = []
     funcs_ok, funcs_oor = [], []
     # ---- functions against their contracts ---------------------------------
